@@ -343,6 +343,9 @@ impl Prop for C11 {
 			"the token map used to aim refill boundaries comes from the reference encoder".into(),
 		]
 	}
+	fn expected_probes(&self) -> Vec<&'static str> {
+		vec!["boundary_in_int_varint", "boundary_in_long_varint", "boundary_in_len_prefix", "boundary_in_payload", "boundary_in_float", "boundary_in_double", "boundary_in_fixed", "boundary_in_union_index", "boundary_in_enum_index", "boundary_in_block_count", "boundary_in_block_size", "boundary_in_duration", "boundary_in_bigdecimal_inner", "boundary_in_single_object_header", "reader_bytewise_or_scratch_path", "container_reads", "container_damaged_reads"]
+	}
 	fn budget(&self, tier: Tier) -> (u64, u64) {
 		match tier {
 			Tier::Quick => (120_000, 75),
@@ -369,7 +372,7 @@ impl Prop for C11 {
 			budget: 8 + rng.below(40) as i32,
 		};
 		let v = val::gen_val(rng, &env, &schema, &vcfg);
-		let gk = rng.below(10);
+		let gk = rng.below(12);
 		let layout = match gk {
 			0..=2 => Layout::default(),
 			3 | 4 => Layout {
@@ -383,6 +386,12 @@ impl Prop for C11 {
 				split_blocks: rng.bool(),
 				negative_counts: rng.bool(),
 				pad_varints: *rng.pick(&[2u8, 5, 9, 10]),
+			},
+			10 => Layout {
+				seed: rng.next_u64(),
+				split_blocks: rng.bool(),
+				negative_counts: true,
+				pad_varints: 0,
 			},
 			_ => Layout {
 				seed: rng.next_u64(),
@@ -408,6 +417,25 @@ impl Prop for C11 {
 			if k == "damaged:truncate" || k == "damaged:insert" {
 				tokens.clear();
 			}
+		} else if gk == 10 {
+			// a size-prefixed block whose declared byte size is off by one (what a skipping reader trusts)
+			let sizes: Vec<Token> = tokens.iter().copied().filter(|t| t.kind == TokKind::BlockSize).collect();
+			if let Some(t) = sizes.last().copied() {
+				let orig = ref_datum::Decoder::new(&env, &bytes[t.off..]).long().unwrap_or(0);
+				let new = if rng.bool() { orig + 1 } else { (orig - 1).max(0) };
+				bytes.splice(t.off..t.off + t.len, ref_datum::encode_long(new));
+				tokens.clear();
+				gen_kind = "block-size-off-by-one".into();
+				trailer = rng.bool();
+			}
+		} else if gk == 11 {
+			// the last one to three bytes are missing
+			let cut = 1 + rng.usize(3);
+			let n = bytes.len().saturating_sub(cut);
+			bytes.truncate(n);
+			tokens.retain(|t| t.off + t.len <= n);
+			gen_kind = "damaged:truncate-tail".into();
+			trailer = false;
 		} else if gk == 9 {
 			let n = rng.usize(49);
 			bytes = rng.bytes(n);
@@ -421,6 +449,7 @@ impl Prop for C11 {
 		// the single-object entry points cannot be given limits (max_seq_size stays at 10^9), so hostile
 		// counts are left to datum mode: single-object mode uses reference encodings only
 		let mode = if rng.chance(1, 6) && gk <= 6 { Mode::SingleObject } else { Mode::Datum };
+		let _ = &mut trailer;
 		if mode == Mode::SingleObject {
 			// header: marker + fingerprint computed by the crate (the header's correctness is C18's business);
 			// occasionally damaged so that the error path is compared too
@@ -443,13 +472,22 @@ impl Prop for C11 {
 				gen_kind.push_str("+short");
 			}
 		}
+		let target = if gk == 10 && rng.chance(3, 4) {
+			if rng.bool() {
+				Target::Ignored
+			} else {
+				Target::Masked(rng.next_u64())
+			}
+		} else {
+			gen_target(rng)
+		};
 		Scn {
 			mode,
 			schema,
 			bytes,
 			gen_kind,
 			tokens,
-			target: gen_target(rng),
+			target,
 			plans: Plans::Enumerate { seed: rng.next_u64() },
 			limits: Limits::sim_default(),
 		}
